@@ -7,14 +7,23 @@
     * a list of change logs decoded through `decodeSliceElems`, with the `rlp.EOL` that
       `ChangeLog.DecodeRLP` lets escape                                    common/rlp/decode.go:306-333
     * `types.Asset` (reflection struct whose last field is a Profile)      chain/types/asset.go:34-43
+    * `types.Block` (reflection struct of Header, txs, change logs, confirms, deputy nodes)   chain/types/block.go:77-83
 
-  Everything is modelled AS THE CODE IS, laxness included (see the refutation theorems in LemoProofs/C14.lean).
-  What the item level cannot express (stated in props `assumptions`):
-    - `Profile.DecodeRLP` and the `size <= 0` tests ignore the *error* of `Stream.Kind`, so they also accept
+  Everything is modelled AS THE CODE IS.  Every decoder takes the flag `fx` of LemoModel/RlpSchema.lean:
+    `fx = true`   /repo as it is, after the strictness fixes 05de783 (header roots), 8a6b205 (Profile), 7e982c7
+                  (ChangeLog EOL), 4ab6b74 (decodeHash/decodeAddress), a0389ea (nil payload = 0xC0 only),
+                  29ca096 / f02560a / 4e3d12b (decodeCandidate / decodeSigners / decodeAsset return the type that
+                  Redo asserts).  This is what the driver runs and what the theorems of LemoProofs/C14.lean state.
+    `fx = false`  the code before those fixes, laxness included; used by the labelled witnesses
+                  `LemoProofs.C14.Legacy.*` only.
+  What the item level could not express about the code BEFORE the fixes (`fx = false`):
+    - `Profile.DecodeRLP` and the `size <= 0` tests ignored the *error* of `Stream.Kind`, so they also accepted
       size-zero headers that are not canonical RLP (0xB800, 0xF800 …); such inputs are no `Item` at all;
-    - after the leaked EOL the Stream's list stack is one level off; inside a Block the following struct fields
-      are then read from inside the change-log list.  Only the stand-alone list (`DecodeBytes` into a
-      `ChangeLogSlice`) is modelled (`decodeLogSlice`).
+    - after the leaked EOL the Stream's list stack was one level off; inside a Block the following struct fields
+      were then read from inside the change-log list.
+  With the fixes every custom decoder hands the error of `Stream.Kind` on, so - like the reflection decoders - it
+  accepts `b` only if the generic decoder does (oracle `c14/<family>-typed-accepts-generic-rejects`, now a failure for
+  every family), and no EOL leaves `ChangeLog.DecodeRLP`.
   Core Lean only.
 -/
 import LemoModel.RlpSchema
@@ -22,13 +31,21 @@ namespace LemoModel.RlpCustom
 open LemoModel.Rlp LemoModel.RlpSchema
 
 /-- `_, size, _ := s.Kind(); size <= 0`: the empty string, a single byte < 0x80 (kind Byte has size 0)
-    and the empty list. -/
+    and the empty list.  (The test of the code before a0389ea / 8a6b205.) -/
 def sizeZero : Item → Bool
   | .bytes [] => true
   | .bytes [x] => x.toNat < 128
   | .bytes _ => false
   | .list [] => true
   | .list _ => false
+
+/-- `decodeNil` (chain/account/change_log.go): `kind == rlp.List && size == 0`, the encoding of a nil interface{} -/
+def emptyList : Item → Bool
+  | .list [] => true
+  | _ => false
+
+/-- which items stand for nil in a payload position -/
+def nilForm (fx : Bool) (it : Item) : Bool := if fx then emptyList it else sizeZero it
 
 /-! ### Profile: a map written as the list of its (key, value) pairs in key order -/
 
@@ -60,9 +77,23 @@ def asPairs : List Item → Option (List KV)
     | some p, some ps => some (p :: ps)
     | _, _ => none
 
-/-- `Profile.DecodeRLP` into an empty map: size zero → nothing read; otherwise `[]Pair`, inserted in order -/
-def decodeProfile (it : Item) : Option (List KV) :=
-  if sizeZero it then some []
+/-- `dec[index-1].Key >= dec[index].Key → ErrProfileKeyOrder`: every key strictly above its predecessor -/
+def ascB : List KV → Bool
+  | [] => true
+  | [_] => true
+  | a :: b :: rest => ltBytes a.1 b.1 && ascB (b :: rest)
+
+/-- `Profile.DecodeRLP` into an empty map.  `fx`: the item must be the list `[]Pair` with strictly ascending keys; the
+    pairs are inserted in order.  Before 8a6b205: size zero → nothing read; otherwise `[]Pair` in any order. -/
+def decodeProfile (fx : Bool) (it : Item) : Option (List KV) :=
+  if fx then
+    match it with
+    | .list xs =>
+      match asPairs xs with
+      | some ps => if ascB ps then some (ps.foldl (fun m p => insertKV p m) []) else none
+      | none => none
+    | .bytes _ => none
+  else if sizeZero it then some []
   else
     match it with
     | .list xs => (asPairs xs).map (fun ps => ps.foldl (fun m p => insertKV p m) [])
@@ -91,17 +122,18 @@ def assetBools : List Val → Bool
   | [_, b1, _, _, _, b2, _] => boolOk b1 && boolOk b2
   | _ => false
 
-def decodeAssetFields (xs : List Item) : Option (List Val) :=
-  match decodeFields assetFields xs with
+def decodeAssetFields (fx : Bool) (xs : List Item) : Option (List Val) :=
+  match decodeFields fx assetFields xs with
   | some fs => if assetBools fs then some fs else none
   | none => none
 
-/-- struct decoder of `types.Asset`; a list with only the seven leading fields is accepted as well:
-    at the end of the list `Profile.DecodeRLP` sees `size == 0` (the EOL error is ignored) and returns nil. -/
-def decodeAsset : Item → Option (List Val × List KV)
-  | .list [a, b, c, d, e, f, g] => (decodeAssetFields [a, b, c, d, e, f, g]).map (fun fs => (fs, []))
+/-- struct decoder of `types.Asset`.  Before 8a6b205 a list with only the seven leading fields was accepted as well:
+    at the end of the list `Profile.DecodeRLP` saw `size == 0` (the EOL error was ignored) and returned nil. -/
+def decodeAsset (fx : Bool) : Item → Option (List Val × List KV)
+  | .list [a, b, c, d, e, f, g] =>
+    if fx then none else (decodeAssetFields fx [a, b, c, d, e, f, g]).map (fun fs => (fs, []))
   | .list [a, b, c, d, e, f, g, p] =>
-    match decodeAssetFields [a, b, c, d, e, f, g], decodeProfile p with
+    match decodeAssetFields fx [a, b, c, d, e, f, g], decodeProfile fx p with
     | some fs, some ps => some (fs, ps)
     | _, _ => none
   | _ => none
@@ -111,17 +143,20 @@ def encodeAsset (v : List Val × List KV) : Option Item :=
 
 /-! ### change-log payloads -/
 
-/-- the registered payload decoders, by their decoding behaviour -/
+/-- the registered payload decoders, by their decoding behaviour (`fx` / before the fixes) -/
 inductive PDec where
   | strict (s : Schema)   -- decodeBigInt (.big), decodeBytes/decodeString/decodeCode (.bytes), decodeEvent (struct)
-  | emptyIface            -- decodeEmptyInterface
-  | loose (n : Nat)       -- decodeHash (32) / decodeAddress (20): `BytesToHash` / `BytesToAddress` of any byte string
-  | nilOr (s : Schema)    -- decodeSigners / decodeEquity / decodeProfileChangeLogExtra: `size <= 0` → nil, else the struct
-  | asset                 -- decodeAsset
-  | candidate             -- decodeCandidate: `size <= 0` → *interface{} holding whatever was there, else a Profile
+  | emptyIface            -- decodeEmptyInterface: the empty list / any size-zero item
+  | fixedN (n : Nat)      -- decodeHash (32) / decodeAddress (20): exactly n bytes / `BytesToHash` of any byte string
+  | nilOr (fs : List Schema) -- decodeEquity / decodeProfileChangeLogExtra: the nil form → nil, else the struct `fs`
+  | signers               -- decodeSigners: always a `types.Signers` / `size <= 0` → untyped nil, else the list
+  | asset                 -- decodeAsset: the nil form → nil (*types.Asset / untyped), else the Asset
+  | candidate             -- decodeCandidate: always a Profile / `size <= 0` → *interface{} holding whatever was there
   deriving Repr, Inhabited
 
-/-- payload values: a typed value, a Profile, an Asset, or the raw item kept by `decodeCandidate` -/
+/-- payload values: a typed value, a Profile, an Asset, or the raw item kept by `decodeCandidate` before 29ca096.
+    `.v .nil` is a nil payload: the untyped nil, or - both are written 0xC0 - the nil `*types.Asset` that
+    `NewAssetCodeLog` stores and `decodeAsset` now returns. -/
 inductive CVal where
   | v (x : Val)
   | prof (ps : List KV)
@@ -133,35 +168,44 @@ inductive CVal where
 def setBytesN (n : Nat) (b : List UInt8) : List UInt8 :=
   List.replicate (n - (b.drop (b.length - n)).length) 0 ++ b.drop (b.length - n)
 
-def runDec : PDec → Item → Option CVal
-  | .strict s, it => (decodeS s it).map CVal.v
-  | .emptyIface, it => if sizeZero it then some (.v .nil) else none
-  | .loose n, .bytes b => some (.v (.bytes (setBytesN n b)))
-  | .loose _, .list _ => none
-  | .nilOr s, it => if sizeZero it then some (.v .nil) else (decodeS s it).map CVal.v
-  | .asset, it => if sizeZero it then some (.v .nil) else (decodeAsset it).map (fun a => CVal.asset a.1 a.2)
-  | .candidate, it => if sizeZero it then some (.raw it) else (decodeProfile it).map CVal.prof
+def signersSchema : Schema := .listOf (.struct [.fixed 20, .uint 8])
+def equityFields : List Schema := [.fixed 32, .fixed 32, .big]
+def extraFields : List Schema := [.fixed 32, .bytes]
+def eventSchema' : Schema := .struct [.fixed 20, .listOf (.fixed 32), .bytes]
 
-/-- the encoder side (`rlp.Encode` of the `interface{}` field): untyped nil is the empty list -/
+def runDec (fx : Bool) : PDec → Item → Option CVal
+  | .strict s, it => (decodeS fx s it).map CVal.v
+  | .emptyIface, it => if nilForm fx it then some (.v .nil) else none
+  | .fixedN n, .bytes b =>
+    if fx then (if b.length = n then some (.v (.bytes b)) else none) else some (.v (.bytes (setBytesN n b)))
+  | .fixedN _, .list _ => none
+  | .nilOr fs, it => if nilForm fx it then some (.v .nil) else (decodeS fx (.struct fs) it).map CVal.v
+  | .signers, it =>
+    if fx then (decodeS fx signersSchema it).map CVal.v
+    else if sizeZero it then some (.v .nil) else (decodeS fx signersSchema it).map CVal.v
+  | .asset, it => if nilForm fx it then some (.v .nil) else (decodeAsset fx it).map (fun a => CVal.asset a.1 a.2)
+  | .candidate, it =>
+    if fx then (decodeProfile fx it).map CVal.prof
+    else if sizeZero it then some (.raw it) else (decodeProfile fx it).map CVal.prof
+
+/-- the encoder side (`rlp.Encode` of the `interface{}` field; unchanged by the fixes): a nil interface{}, a nil
+    pointer to a struct and a nil slice are the empty list -/
 def runEnc : PDec → CVal → Option Item
   | .strict s, .v x => encodeS s x
   | .emptyIface, .v .nil => some (.list [])
-  | .loose n, .v (.bytes b) => if b.length = n then some (.bytes b) else none
+  | .fixedN n, .v (.bytes b) => if b.length = n then some (.bytes b) else none
   | .nilOr _, .v .nil => some (.list [])
-  | .nilOr s, .v x => encodeS s x
+  | .nilOr fs, .v x => encodeS (.struct fs) x
+  | .signers, .v .nil => some (.list [])
+  | .signers, .v x => encodeS signersSchema x
   | .asset, .v .nil => some (.list [])
   | .asset, .asset fs ps => encodeAsset (fs, ps)
   | .candidate, .raw it => some it
   | .candidate, .prof ps => some (encodeProfile ps)
   | _, _ => none
 
-def signersSchema : Schema := .listOf (.struct [.fixed 20, .uint 8])
-def equitySchema : Schema := .struct [.fixed 32, .fixed 32, .big]
-def extraSchema : Schema := .struct [.fixed 32, .bytes]
-def eventSchema' : Schema := .struct [.fixed 20, .listOf (.fixed 32), .bytes]
-
-def dHash := PDec.loose 32
-def dAddr := PDec.loose 20
+def dHash := PDec.fixedN 32
+def dAddr := PDec.fixedN 20
 def dBig := PDec.strict .big
 def dBytes := PDec.strict .bytes
 
@@ -171,12 +215,12 @@ def logDecoders : Nat → Option (PDec × PDec)
   | 2 => some (dBytes, dHash)                            -- StorageLog
   | 3 => some (dHash, .emptyIface)                       -- StorageRootLog
   | 4 => some (.asset, dHash)                            -- AssetCodeLog
-  | 5 => some (dBytes, .nilOr extraSchema)               -- AssetCodeStateLog
+  | 5 => some (dBytes, .nilOr extraFields)               -- AssetCodeStateLog
   | 6 => some (dHash, .emptyIface)                       -- AssetCodeRootLog
   | 7 => some (dBig, dHash)                              -- AssetCodeTotalSupplyLog
   | 8 => some (dBytes, dHash)                            -- AssetIdLog
   | 9 => some (dHash, .emptyIface)                       -- AssetIdRootLog
-  | 10 => some (.nilOr equitySchema, dHash)              -- EquityLog
+  | 10 => some (.nilOr equityFields, dHash)              -- EquityLog
   | 11 => some (dHash, .emptyIface)                      -- EquityRootLog
   | 12 => some (.candidate, .emptyIface)                 -- CandidateLog
   | 13 => some (dBytes, dBytes)                          -- CandidateStateLog
@@ -185,7 +229,7 @@ def logDecoders : Nat → Option (PDec × PDec)
   | 16 => some (.emptyIface, .emptyIface)                -- SuicideLog
   | 17 => some (dAddr, .emptyIface)                      -- VoteForLog
   | 18 => some (dBig, .emptyIface)                       -- VotesLog
-  | 19 => some (.nilOr signersSchema, .emptyIface)       -- SignerLog
+  | 19 => some (.signers, .emptyIface)                   -- SignerLog
   | _ => none
 
 structure CLog where
@@ -197,23 +241,24 @@ structure CLog where
   deriving Repr, Inhabited
 
 def decU32 (it : Item) : Option Nat :=
-  match decodeS (.uint 32) it with
+  match decodeS true (.uint 32) it with
   | some (.nat n) => some n
   | _ => none
 
 def decAddr (it : Item) : Option (List UInt8) :=
-  match decodeS (.fixed 20) it with
+  match decodeS true (.fixed 20) it with
   | some (.bytes b) => some b
   | _ => none
 
-/-- `ChangeLog.DecodeRLP` on a complete five-element list -/
-def decodeChangeLog : Item → Option CLog
+/-- `ChangeLog.DecodeRLP`: a complete five-element list (with `fx` everything else is an error; before 7e982c7 a
+    shorter list leaked `rlp.EOL`, see `leaksEOL`) -/
+def decodeChangeLog (fx : Bool) : Item → Option CLog
   | .list [a, b, c, d, e] =>
     match decU32 a, decAddr b, decU32 c with
     | some lt, some addr, some ver =>
       match logDecoders lt with
       | some (p, q) =>
-        match runDec p d, runDec q e with
+        match runDec fx p d, runDec fx q e with
         | some nv, some ex => some ⟨lt, addr, ver, nv, ex⟩
         | _, _ => none
       | none => none
@@ -229,8 +274,8 @@ def encodeChangeLog (l : CLog) : Option Item :=
     | _, _, _, _, _ => none
   | none => none
 
-/-- a list element with fewer than five entries whose present entries decode: `ChangeLog.DecodeRLP`
-    runs into the end of the element's list and returns the raw `rlp.EOL` of the Stream -/
+/-- THE CODE BEFORE 7e982c7: a list element with fewer than five entries whose present entries decode:
+    `ChangeLog.DecodeRLP` ran into the end of the element's list and returned the raw `rlp.EOL` of the Stream -/
 def leaksEOL : Item → Bool
   | .list [] => true
   | .list [a] => (decU32 a).isSome
@@ -243,25 +288,25 @@ def leaksEOL : Item → Bool
     match decU32 a, decAddr b, decU32 c with
     | some lt, some _, some _ =>
       match logDecoders lt with
-      | some (p, _) => (runDec p d).isSome
+      | some (p, _) => (runDec false p d).isSome
       | none => false
     | _, _, _ => false
   | _ => false
 
-/-- `decodeSliceElems` over change logs at top level (`rlp.DecodeBytes(b, &ChangeLogSlice)`):
-    an element error equal to EOL ends the loop "successfully"; `DecodeBytes` then still insists that
-    all input was consumed, so the leak is accepted exactly when the short log is the last element. -/
-def decodeLogElems : List Item → Option (List CLog)
+/-- `decodeSliceElems` over change logs at top level (`rlp.DecodeBytes(b, &ChangeLogSlice)`): every element is a
+    change log.  Before 7e982c7 an element error equal to EOL ended the loop "successfully"; `DecodeBytes` then still
+    insisted that all input was consumed, so the leak was accepted exactly when the short log was the last element. -/
+def decodeLogElems (fx : Bool) : List Item → Option (List CLog)
   | [] => some []
   | x :: rest =>
-    if leaksEOL x then (if rest.isEmpty then some [] else none)
+    if !fx && leaksEOL x then (if rest.isEmpty then some [] else none)
     else
-      match decodeChangeLog x, decodeLogElems rest with
+      match decodeChangeLog fx x, decodeLogElems fx rest with
       | some l, some ls => some (l :: ls)
       | _, _ => none
 
-def decodeLogSlice : Item → Option (List CLog)
-  | .list xs => decodeLogElems xs
+def decodeLogSlice (fx : Bool) : Item → Option (List CLog)
+  | .list xs => decodeLogElems fx xs
   | .bytes _ => none
 
 def encodeLogElems : List CLog → Option (List Item)
@@ -288,10 +333,17 @@ def okAt (P : Val → Prop) : Nat → List Val → Prop
   | _, [] => True
   | i, x :: xs => ((i = 3 ∨ i = 4) → P x) ∧ okAt P (i + 1) xs
 
-/-- `Header.DecodeRLP`: the reflection decoder of `rlpHeader`, then the roots through `decRoot` -/
-def decodeHeader (E : List UInt8) (it : Item) : Option Val :=
-  match decodeS headerSchema it with
-  | some (.list ws) => some (.list (mapAt (onBytes (decRoot E)) 0 ws))
+/-- `rootOk` on the byte strings at positions 3 and 4 (counted from `i`) -/
+def rootsOk (E : List UInt8) : Nat → List Val → Bool
+  | _, [] => true
+  | i, x :: xs =>
+    (if i = 3 ∨ i = 4 then (match x with | .bytes r => rootOk E r | _ => true) else true) && rootsOk E (i + 1) xs
+
+/-- `Header.DecodeRLP`: the reflection decoder of `rlpHeader`, then the roots through `decodeRoot`
+    (`fx`: `rootOk` or an error; before 05de783 every byte string) -/
+def decodeHeader (fx : Bool) (E : List UInt8) (it : Item) : Option Val :=
+  match decodeS fx headerSchema it with
+  | some (.list ws) => if fx && !rootsOk E 0 ws then none else some (.list (mapAt (onBytes (decRoot E)) 0 ws))
   | _ => none
 
 /-- `Header.EncodeRLP`: the roots through `encRoot`, then the reflection encoder of `rlpHeader` -/
@@ -305,6 +357,35 @@ def headerHashPreimage : Val → Option (List UInt8)
     (encodeS (.struct [hash, address, hash, hash, hash, .uint 32, .uint 64, .uint 64, .uint 32, .bytes, .bytes])
       (.list [a, b, c, d, e, f, g, h, i, k, l])).map encode
   | _ => none
+
+/-! ### `Block` (block.go:77-83): the reflection struct of the codecs above — Header (custom), Txs (`[]*Transaction`, each
+  the `txdata` struct), ChangeLogs (`[]*ChangeLog`, custom elements), Confirms (`[]SignData`), DeputyNodes (`[]*DeputyNode`).
+
+  Only the code as it is.  Before 7e982c7 a short change log inside a block leaked `rlp.EOL` and left the Stream's list
+  stack one level off (the following struct fields were read from inside the change-log list); the item level cannot
+  express that, so there is no `fx = false` version of the Block codec (the stand-alone list is `decodeLogSlice false`). -/
+
+structure BlockV where
+  header : Val
+  txs : Val
+  logs : List CLog
+  confirms : Val
+  deputies : Val
+  deriving Repr, Inhabited
+
+def decodeBlock (E : List UInt8) : Item → Option BlockV
+  | .list [h, txs, logs, cf, dn] =>
+    match decodeHeader true E h, decodeS true (.listOf txSchema) txs, decodeLogSlice true logs,
+          decodeS true (.listOf signData) cf, decodeS true (.listOf deputyNodeSchema) dn with
+    | some hv, some tv, some lv, some cv, some dv => some ⟨hv, tv, lv, cv, dv⟩
+    | _, _, _, _, _ => none
+  | _ => none
+
+def encodeBlock (E : List UInt8) (b : BlockV) : Option Item :=
+  match encodeHeader E b.header, encodeS (.listOf txSchema) b.txs, encodeLogSlice b.logs,
+        encodeS (.listOf signData) b.confirms, encodeS (.listOf deputyNodeSchema) b.deputies with
+  | some h, some t, some l, some c, some d => some (.list [h, t, l, c, d])
+  | _, _, _, _, _ => none
 
 /-- `merkle.EmptyTrieHash` = Keccak256 of nothing (common/merkle) -/
 def emptyTrieHash : List UInt8 :=
